@@ -1,5 +1,5 @@
 From Hannibal Require Import Model.Sys.
-From Hannibal Require Props.C16.
+From Hannibal Require Chk.C16 Props.C16.
 Check Props.C16.C16_child_is_held_strongly :
   forall s a ty h s', step s (EvChildAdd a ty h) = Acc s' ->
   exists x b, actors s a = Some x /\ handles s h = Some (b, KSender)
@@ -18,3 +18,4 @@ Check Props.C16.C16_broadcast_targets :
     /\ handles s h = Some (b, k)
     /\ ops s' o = Some p /\ op_a p = b /\ op_k p = XBcast
     /\ actors s' a = Some x' /\ a_bcur x' = S (a_bcur x) /\ a_children x' = a_children x.
+Check Props.C16.C16_broadcast_is_complete : forall tr, accepts tr = true -> Chk.C16.chk_C16 tr = true.
